@@ -1,13 +1,18 @@
 #!/bin/bash
-# run checks against a seeded change: apply to /repo, run the named checks in parallel, undo straight afterwards
+# run checks against a seeded change.  The change is applied to a scratch COPY of /repo (so that
+# /repo itself – which background soaks read – is never modified) and the checks run with
+# VARPRO_REPO pointing at the copy; the copy is removed afterwards.
 # usage: tools/seeded_run.sh <seed-id> <property> [<property>...]
 id=$1; shift
 cd /verif
-git -C /repo apply /verif/seeded/$id/patch.diff || { echo "patch does not apply"; exit 2; }
-trap 'git -C /repo checkout -- .; git -C /repo status --short | head -3' EXIT
+scratch=/tmp/seedrepo-$id
+rm -rf $scratch; mkdir -p $scratch
+rsync -a --exclude target --exclude .git /repo/ $scratch/repo/
+( cd $scratch/repo && git init -q . && git apply /verif/seeded/$id/patch.diff ) || { echo "patch does not apply"; rm -rf $scratch; exit 2; }
+trap 'rm -rf $scratch' EXIT
 mkdir -p /tmp/seedrun
 for p in "$@"; do
-  ( ./check $p > /tmp/seedrun/$id.$p.out 2>&1; echo $? > /tmp/seedrun/$id.$p.rc ) &
+  ( VARPRO_REPO=$scratch/repo ./check $p > /tmp/seedrun/$id.$p.out 2>&1; echo $? > /tmp/seedrun/$id.$p.rc ) &
 done
 wait
 for p in "$@"; do
